@@ -697,10 +697,15 @@ def recovery_probe(mon, env, cls):
     ck = env['ck']; x = mon.x; c = lambda fn, **kw: mon.call(dict(fn=fn, **kw), cls); used = 0
     if c('C_Initialize', locking='os')['rv'] != 0:
         c('C_GetSlotList', count=16); c('C_Finalize'); return 0
-    c('C_GetInfo'); n = c('C_GetSlotList', null=True).get('n', 0); slots = c('C_GetSlotList', count=max(16, min(n, 256))).get('slots', [])
+    c('C_GetInfo'); slots = []
+    for present in (False, True):      # the two-call idiom: size query, then a buffer of EXACTLY that size (a heap block of that size in the executor)
+        n = c('C_GetSlotList', null=True, present=present).get('n', 0); r = c('C_GetSlotList', count=min(n, 4096), present=present); slots = r.get('slots', []) or slots
     u64 = lambda v: struct.pack('<Q', v).hex()
     for slot in slots[:6]:
-        c('C_GetSlotInfo', slot=slot); ti = c('C_GetTokenInfo', slot=slot); c('C_GetMechanismList', slot=slot, count=128)
+        c('C_GetSlotInfo', slot=slot); ti = c('C_GetTokenInfo', slot=slot)
+        n = c('C_GetMechanismList', slot=slot, null=True).get('n', 0); ml = c('C_GetMechanismList', slot=slot, count=min(n, 4096)).get('mechs', [])
+        if n > 1: c('C_GetMechanismList', slot=slot, count=n - 1)
+        for m in ml[:200]: c('C_GetMechanismInfo', slot=slot, m=m)
         r = c('C_OpenSession', slot=slot, flags=6)
         if r['rv'] != 0: continue
         S = r['h']; c('C_GetSessionInfo', s=S)
@@ -929,6 +934,7 @@ def sorted_objs(tok): return sorted((n for n in os.listdir(tok) if n.endswith('.
 def directed_items(env):
     """systematic part of the file fuzz: every key-material attribute of every object of token 0 x {deleted, emptied, stored under another kind}"""
     ck = env['ck']; want = {ck[a] for a in KEY_ATTR_NAMES}; be = env['backend']; toks = token_dirs(env['golden']); toks.sort(key=lambda t: read_label(t, be)); t0 = toks[0]; out = []
+    out += [('dir', i, 0, 'conf-mechanisms') for i in range(len(CONF_DIRECTED))]      # slots.mechanisms lists that name a mechanism 2..40 times (positive / negative, with / without unknown names)
     if be == 'file':
         for oi, n in enumerate(sorted_objs(t0)):
             for (s0, e0, t, k) in FG.walk_objfile(open(os.path.join(t0, n), 'rb').read())[1]:
@@ -940,8 +946,13 @@ def directed_items(env):
                 if t in want: out += [('dir', oid, t, op) for op in ('delete', 'empty', 'kind')]
         con.close()
     return out
+CONF_DIRECTED = [(pos, rep, unk, k) for pos in (True, False) for rep in (2, 3, 13, 40) for unk in (False, True) for k in (1, 3)]
 def apply_directed(env, t0, item):
     _, oi, at, op = item; U = lambda v: struct.pack('>Q', v)
+    if op == 'conf-mechanisms':
+        pos, rep, unk, k = CONF_DIRECTED[oi]; conf = os.path.join(os.path.dirname(os.path.dirname(t0)), 'softhsm2.conf')
+        val = FG.mech_list_with_duplicates(random.Random(oi), pos, rep, unk, names=FG.MECH_NAMES[:k])
+        open(conf, 'a').write('slots.mechanisms = %s\n' % val); return 'conf:mechanisms-duplicates', {'operator': 'directed:slots.mechanisms', 'value': val[:200], 'entries': val.count(',') + 1}
     if env['backend'] == 'file':
         p = os.path.join(t0, sorted_objs(t0)[oi]); b = open(p, 'rb').read(); rec = [x for x in FG.walk_objfile(b)[1] if x[2] == at][0]; s0, e0, t, k = rec
         if op == 'delete': new = b[:s0] + b[e0:]
